@@ -53,8 +53,10 @@ def compare_all(ta, tb, **kw):
 
 
 def V(clause, step, observed, expected, **facts):
+    from ..driver import _js
+
     facts.setdefault("sig", [clause])
-    return {"clause": clause, "step": step, "observed": observed, "expected": expected, "facts": facts}
+    return {"clause": clause, "step": _js(step), "observed": _js(observed), "expected": _js(expected), "facts": {k: _js(v) for k, v in facts.items()}}
 
 
 def table_state_keys(tb):
